@@ -439,10 +439,13 @@ func walkTableNames(astNode *ast.AST, add func(name string)) {
 // keywords that are written without parentheses (CURRENT_DATE, ...): the parser
 // represents them as identifiers, but they are keywords, not columns.
 func isNiladicKeyword(name string) bool {
-	switch strings.ToUpper(name) {
-	case "CURRENT_DATE", "CURRENT_TIME", "CURRENT_TIMESTAMP", "CURRENT_USER",
-		"LOCALTIME", "LOCALTIMESTAMP", "SESSION_USER":
-		return true
+	for _, kw := range [...]string{"CURRENT_DATE", "CURRENT_TIME", "CURRENT_TIMESTAMP", "CURRENT_USER",
+		"LOCALTIME", "LOCALTIMESTAMP", "SESSION_USER"} {
+		// the keywords are ASCII: a name of another byte length holds a letter
+		// that merely folds to an ASCII one (U+017F, U+0131) and is a column
+		if len(name) == len(kw) && strings.EqualFold(name, kw) {
+			return true
+		}
 	}
 	return false
 }
